@@ -23,7 +23,6 @@ import (
 	"bytes"
 	"context"
 	"errors"
-	"fmt"
 
 	"github.com/plgd-dev/go-coap/v3/message"
 	"github.com/plgd-dev/go-coap/v3/message/pool"
@@ -410,5 +409,3 @@ func (w *poolWorld) queryBuilder(sc *scratch, rep *reporter) {
 func (w *poolWorld) nontrivial() bool {
 	return w.flag || len(w.ma.e) > 0 || len(w.mb.e) > 0
 }
-
-var _ = fmt.Sprintf
